@@ -117,7 +117,15 @@ Take(c, S) == (net (-) SetToBag({c})) (+) SetToBag(S)
 \*       live  same, restricted to the current period of f being actively renewing
 \*       kill  "none" | "del" (table entry deleted) | "unreg" (f unregistered), killAt its instant
 \*       active  register() was called and neither unregister() nor a stop of the renewals since
-H0 == [reg |-> NONE, ack |-> NONE, live |-> NONE, kill |-> "none", killAt |-> NONE, active |-> FALSE]
+\*       prom  the earliest instant by which a Read-FDT reply promised the entry to be purged (remaining seconds as
+\*             reported, counted in whole-second boundaries); void on re-registration / deletion
+H0 == [reg |-> NONE, ack |-> NONE, live |-> NONE, kill |-> "none", killAt |-> NONE, active |-> FALSE, prom |-> NONE]
+RECURSIVE Promise(_, _, _, _, _)
+Promise(hh, b, tab, i, t) ==
+    IF i > Len(tab) THEN hh
+    ELSE LET f == tab[i][1]  p == (t \div Res + tab[i][3]) * Res IN
+         Promise(IF f \in FDs /\ BBMDof[f] = b
+                   THEN [hh EXCEPT ![f].prom = IF @ = NONE \/ p < @ THEN p ELSE @] ELSE hh, b, tab, i + 1, t)
 
 MustServe(hh, f, t) == hh[f].ack # NONE /\ hh[f].kill = "none" /\ t <= hh[f].ack + TTL[f] * Res
 Expired(hh, f, t) == hh[f].reg # NONE /\ t >= hh[f].reg + (TTL[f] + PGrace) * Res
@@ -158,17 +166,18 @@ HUpd(hh, a, t) ==
     CASE a.n = "Rx" ->
             LET c == a.c IN
             IF c.fn = "RG" /\ IsB(c.to) /\ IsF(c.src) /\ BBMDof[c.src] = c.to /\ c.arg > 0
-              THEN [hh EXCEPT ![c.src].reg = t, ![c.src].kill = "none", ![c.src].killAt = NONE]
+              THEN [hh EXCEPT ![c.src].reg = t, ![c.src].kill = "none", ![c.src].killAt = NONE, ![c.src].prom = NONE]
             ELSE IF c.fn = "RG" /\ IsB(c.to) /\ IsF(c.src) /\ BBMDof[c.src] = c.to /\ c.arg = 0
               \* the BBMD processes an unregistration (possibly overtaken by a renewal still under way)
               THEN [hh EXCEPT ![c.src].kill = "unreg", ![c.src].killAt = IF hh[c.src].kill = "unreg" THEN @ ELSE t,
-                              ![c.src].ack = NONE, ![c.src].live = NONE]
+                              ![c.src].ack = NONE, ![c.src].live = NONE, ![c.src].prom = NONE]
             ELSE IF c.fn = "DF" /\ IsB(c.to) /\ c.arg \in FDs /\ BBMDof[c.arg] = c.to
               THEN [hh EXCEPT ![c.arg].kill = "del", ![c.arg].killAt = t, ![c.arg].ack = NONE, ![c.arg].live = NONE,
-                              ![c.arg].reg = NONE]
+                              ![c.arg].reg = NONE, ![c.arg].prom = NONE]
             ELSE IF c.fn = "RS" /\ IsF(c.to) /\ c.src = BBMDof[c.to] /\ c.arg = 0 /\ hh[c.to].active
                     /\ hh[c.to].kill = "none" /\ hh[c.to].reg # NONE
               THEN [hh EXCEPT ![c.to].ack = t, ![c.to].live = t]
+            ELSE IF c.fn = "RF" /\ IsB(c.to) THEN Promise(hh, c.to, a.rt, 1, t)
             ELSE hh
       [] a.n = "FDRegister"   -> [hh EXCEPT ![a.who].active = TRUE, ![a.who].live = NONE]
       [] a.n = "FDUnregister" -> [hh EXCEPT ![a.who].kill = "unreg", ![a.who].killAt = t, ![a.who].ack = NONE,
@@ -275,7 +284,9 @@ RxBBMD(c) ==
 Rx(c) ==
     /\ BagIn(c, net)
     /\ CASE IsS(c.to) -> RxSimple(c) [] IsB(c.to) -> RxBBMD(c) [] IsF(c.to) -> RxForeign(c)
-    /\ act' = [n |-> "Rx", who |-> c.to, mid |-> c.mid, d |-> 0, c |-> c]
+    \* rt: the table carried by the Read-FDT-Ack this step sends (observable on the wire)
+    /\ act' = [n |-> "Rx", who |-> c.to, mid |-> c.mid, d |-> 0, c |-> c,
+               rt |-> IF c.fn = "RF" /\ IsB(c.to) THEN TableSeq(c.to) ELSE <<>>]
     /\ UNCHANGED <<now, tk>>
 
 \* ---- BBMDTick: BIPBBMD.process_task ----------------------------------------------------------------------
@@ -409,8 +420,9 @@ ReplyOK(b, tab) ==
                /\ rem * Res >= h[f].reg + TTL[f] * Res - now
                /\ rem <= TTL[f] + PGrace - ((now - h[f].reg) \div Res))
 ListedIffLive ==
-    (act.n = "Rx" /\ act.c.fn = "RF") =>
-        \E c \in BagToSet(net) : c.fn = "FA" /\ c.src = act.who /\ c.to = act.c.src /\ ReplyOK(act.who, c.tab)
+    /\ (act.n = "Rx" /\ act.c.fn = "RF" /\ IsB(act.who)) => ReplyOK(act.who, act.rt)
+    \* a reported remaining time is honoured: without re-registration the entry is gone once it has run out
+    /\ \A f \in FDs : (h[f].prom # NONE /\ now > h[f].prom) => ~Listed(f)
 
 TypeOK == /\ now \in Nat /\ \A f \in FDs : fd[f].st \in {-2, -1, 0}
 =============================================================================
